@@ -24,7 +24,8 @@ COMPONENTS_REAL = ["gemclus forward passes (_infer) and back-propagation (_compu
                    "gemclus GEMINI gradients, RIM/KernelRIM penalty gradients, mlcl decorators, fit and _path training loops",
                    "scikit-learn SGD/Adam moment updates"]
 COMPONENTS_STUB = ["reference GEMINI scores (gemsim.refs.ref_gemini, POT emd2 called directly) as the differentiated objective",
-                   "BaseOptimizer.update_params (real / scaled / teleport)", "RandomState.permutation (faithful or adversarial)"]
+                   "BaseOptimizer.update_params (real / scaled / teleport)", "RandomState.permutation (faithful or adversarial)",
+                   "crash at an arbitrary point: seams.LineCrash (sys.settrace) raises when the k-th source line of the library is about to run, in interrupted calls of the history"]
 ASSUMPTIONS = ["numerical oracle: errors below 2% of a parameter array's largest gradient entry are not decided",
                "steps with a prediction outside [1e-6, 1-1e-6] (calibrated: no alarm on the unchanged tree down to 1e-8), non-finite directions, or coordinates on a kink (one-sided "
                "derivatives disagree) are counted and skipped, not judged",
